@@ -1524,7 +1524,7 @@ async def case_writer(conn, limits, size, nwrites, slow, via):
             step = max(1, size // nwrites)
             for i in range(0, size, step):
                 proc.stdin.write(data[i:i + step])
-                await asyncio.wait_for(proc.stdin.drain(), 20)
+                await _wait_progress(proc.stdin.drain(), proc.channel.get_write_buffer_size)
                 n = proc.channel.get_write_buffer_size()
                 # writing was paused iff the buffer went above the high-water mark; it resumes at the low-water mark
                 bound = low if prev + len(data[i:i + step]) > high else high
@@ -1533,7 +1533,7 @@ async def case_writer(conn, limits, size, nwrites, slow, via):
             proc.stdin.write_eof()
         else:
             await proc.redirect(stdin=io.BytesIO(data))
-        res = await asyncio.wait_for(proc.wait(), 30)
+        res = await _wait_progress(proc.wait(), proc.channel.get_write_buffer_size)
         return 'ok', left, low, bytes(res.stdout)
     except asyncio.TimeoutError:
         proc.close()
@@ -1541,6 +1541,24 @@ async def case_writer(conn, limits, size, nwrites, slow, via):
     except OSError as e:
         proc.close()
         return 'raised ' + type(e).__name__, left, low, None
+
+
+async def _wait_progress(aw, progress, idle=25.0, cap=900.0):
+    """Await `aw`, giving up (asyncio.TimeoutError) only when `progress()` has not changed for `idle` seconds:
+    robust on a loaded machine, still bounded for a genuine hang."""
+    import time as _t
+    fut = asyncio.ensure_future(aw)
+    last = progress()
+    t0 = t_last = _t.monotonic()
+    while not fut.done():
+        await asyncio.wait([fut], timeout=0.2)
+        cur, now = progress(), _t.monotonic()
+        if cur != last:
+            last, t_last = cur, now
+        elif now - t_last > idle or now - t0 > cap:
+            fut.cancel()
+            raise asyncio.TimeoutError
+    return fut.result()
 
 
 def judge_writer(size, got):
@@ -1577,17 +1595,18 @@ async def case_reredirect(conn, size, piece, slow, delay):
     await proc.redirect(stdout=second)
     if not slow:
         # the old pipe is still not read: only the re-redirection itself can have taken its pause away
-        for _ in range(1500):
-            if second.was_closed:
-                break
-            await asyncio.sleep(0.01)
-        else:
+        async def _closed():
+            while not second.was_closed:
+                await asyncio.sleep(0.01)
+        try:
+            await _wait_progress(_closed(), lambda: len(second.getvalue()))
+        except asyncio.TimeoutError:
             proc.close()
             os.close(r)
             return data, None
     sink = None if slow else ThreadSink(lambda fd: os.read(fd, 65536), r, 0)
     try:
-        await asyncio.wait_for(proc.wait(), 30)
+        await _wait_progress(proc.wait(), lambda: (len(first.buf) if slow else 0, len(second.getvalue())))
     except asyncio.TimeoutError:
         proc.close()
         return data, None
